@@ -72,6 +72,36 @@ func (vc *FnVC) libModel(in *ssa.Call, callee *ssa.Function) bool {
 			vc.modelUsed(name)
 			return true
 		}
+	case name == "encoding/binary.AppendUvarint":
+		// appends between 1 and 10 bytes (exactly one when x < 128); the prefix is preserved;
+		// in place when the capacity suffices, otherwise a new backing array. The bytes
+		// themselves are not modelled.
+		s := vc.val(args[0])
+		x := a(1)
+		k := vc.freshConst("uvlen", "Int")
+		vc.fact(fmt.Sprintf("(and (<= 1 %s) (<= %s 10) (= (= %s 1) (< %s 128)))", k, k, k, x))
+		c, srt := vc.elemComp(types.Typ[types.Uint8])
+		h := vc.heapGet(c, srt)
+		newLen := fmt.Sprintf("(+ (s.len %s) %s)", s.S, k)
+		fits := fmt.Sprintf("(<= %s (s.cap %s))", newLen, s.S)
+		farr := vc.newAllocRef("uv$" + mangle(in.Name()))
+		fcap := vc.freshConst("uvcap", "Int")
+		vc.fact(fmt.Sprintf("(and (>= %s %s) (<= %s 281474976710656))", fcap, newLen, fcap))
+		r := vc.defineNamed("uvapp", "Slice", fmt.Sprintf("(ite %s (mkSlice (s.arr %s) (s.off %s) %s (s.cap %s)) (mkSlice %s 0 %s %s))", fits, s.S, s.S, newLen, s.S, farr, newLen, fcap))
+		if !vc.rootIsFresh(fmt.Sprintf("(s.arr %s)", s.S)) && vc.fc != nil {
+			vc.checkRangeWrite(modItem{text: "binary.AppendUvarint (in place)", kind: "range", ref: fmt.Sprintf("(s.arr %s)", s.S), comp: c, elem: types.Typ[types.Uint8],
+				lo: fmt.Sprintf("(ite %s (+ (s.off %s) (s.len %s)) 0)", fits, s.S, s.S), hi: fmt.Sprintf("(ite %s (+ (s.off %s) %s) 0)", fits, s.S, newLen)}, in.Pos())
+		}
+		f := vc.freshConst("uvd", "(Array Int Int)")
+		oldS := fmt.Sprintf("(select %s (s.arr %s))", h, s.S)
+		off := fmt.Sprintf("(s.off %s)", r)
+		// result array: the old elements where they were (in place) or copied to the front (grown)
+		vc.fact(fmt.Sprintf("(forall ((i Int)) (! (and (<= 0 (select %s i)) (<= (select %s i) 255) (=> (and (<= %s i) (< i (+ %s (s.len %s)))) (= (select %s i) (select %s (+ (s.off %s) (- i %s))))) (=> (and %s (or (< i %s) (>= i (+ %s %s)))) (= (select %s i) (select %s i)))) :pattern ((select %s i))))",
+			f, f, off, off, s.S, f, oldS, s.S, off, fits, off, off, newLen, f, oldS, f))
+		vc.heapSet(c, srt, fmt.Sprintf("(store %s (s.arr %s) %s)", h, r, f))
+		vc.setRes(in, Term{S: r, Sort: "Slice", T: in.Type()})
+		vc.modelUsed(name)
+		return true
 	case name == "sort.Search":
 		// sort.Search(n, f): binary search; whatever f does, the result r satisfies 0 <= r <= n
 		// (n < 0 yields 0). With a straight-line predicate closure the two facts binary search
@@ -508,6 +538,18 @@ func (vc *FnVC) bigMethod(in *ssa.Call, m string, args []ssa.Value) bool {
 		}
 		set(v)
 		vc.setRes(in, intT(z))
+	case "Bit":
+		// x.Bit(i) for a constant i and non-negative x: bit i of the value (for negative x the
+		// result is left arbitrary: two's complement of an unbounded integer is not modelled)
+		i, isC := isConstVal(args[1])
+		if !isC || !i.IsInt64() || i.Int64() < 0 || i.Int64() > 4096 {
+			ok = false
+			break
+		}
+		x := get(0)
+		r := vc.freshConst("bit", "Int")
+		vc.fact(fmt.Sprintf("(and (<= 0 %s) (<= %s 1) (=> (>= %s 0) (= %s (mod (div %s %s) 2))))", r, r, x, r, x, pow2(int(i.Int64())).String()))
+		vc.setRes(in, intT(r))
 	case "BitLen":
 		r := vc.freshConst("blen", "Int")
 		x := get(0)
